@@ -134,8 +134,7 @@ class StmtMixin:
                     seq = list(v.py)
                 # a concrete set constant: order is arbitrary in Python; only reachable for
                 # module-level constants, where every order is explored symbolically if len > 1
-                if len(seq) > 1:
-                    t = T.Set(ops.py_type_of(seq[0]) if False else v.ty.elem)
+                if len(seq) > 1 and not getattr(self, "_unroll_sets", False):
                     return IterInfo("set", set_term=lift(v), elem=v.ty.elem)
                 items = seq
             elif isinstance(v.py, dict):
@@ -340,6 +339,11 @@ class StmtMixin:
         finally:
             self.qstack.pop()
         if not (not ke.is_py and z3.eq(lift(ke), x)):
+            if kind == "set" and ke.ty is not PYOBJ:
+                # {f(x) for x in S if c}: the image  λy. ∃x. x∈S ∧ c ∧ y == f(x)
+                y = fresh(ke.ty, "img")
+                img = z3.Lambda([y], z3.Exists([x], z3.And(guard, *conds, y == lift(ke))))
+                return Val(T.Set(ke.ty), img)
             raise Unsupported("comprehension key/element must be the iteration variable itself", node)
         dom = z3.Lambda([x], z3.And(guard, *conds))
         # emptiness of the comprehension, stated explicitly (saves the solver an extensionality argument)
@@ -373,6 +377,11 @@ class StmtMixin:
         finally:
             self.qstack.pop()
         et = body.ty
+        if et is PYOBJ and body.is_py and isinstance(body.py, tuple) and body.py:
+            parts = [x if isinstance(x, Val) else Val.const(x) for x in body.py]
+            if all(p.ty is not PYOBJ for p in parts):
+                et = T.Tuple(*[p.ty for p in parts])
+                body = coerce(body, et)
         if et is PYOBJ:
             raise Unsupported("list comprehension element type", node)
         r = fresh(T.List(et), "comp")
